@@ -211,3 +211,6 @@ func envInt(name string, def int) int {
 	}
 	return def
 }
+
+// nowNs is the real wall clock (internal deadlines only, never an oracle).
+func nowNs() int64 { return time.Now().UnixNano() }
